@@ -25,6 +25,21 @@ type History struct {
 	MaxPointSize int                `json:"maxPointSize"`
 	CacheLimit   int64              `json:"cacheLimit"` // -1 unlimited, 0 disabled, >0 bytes
 	Steps        []Step             `json:"steps"`
+	// FirstNodeId > 0: the shard starts as one that has already handed out (and freed again) that many
+	// internal node ids: its next fresh node id is preset, so that the history runs with node ids around a
+	// boundary that would otherwise take millions of writes to reach
+	FirstNodeId uint64 `json:"firstNodeId,omitempty"`
+}
+
+// NodeIdBoundaries are values around which the code under test changes its representation of node id
+// sets (the size classes of the graph search's visited bit sets) or integer widths.
+var NodeIdBoundaries = []uint64{255, 256, 65535, 65536, 110_000, 260_000, 520_000, 1_300_000, 2_600_000, 5_200_000, 10_500_000, 1<<32 - 1, 1 << 32}
+
+// GenFirstNodeId draws a preset for History.FirstNodeId: a boundary minus a few ids, so that the history
+// crosses it.
+func GenFirstNodeId(t *rapid.T, label string) uint64 {
+	b := rapid.SampledFrom(NodeIdBoundaries).Draw(t, label+"-boundary")
+	return b - uint64(rapid.IntRange(0, 12).Draw(t, label+"-below"))
 }
 
 // HistoryOpts tunes the history generator.
